@@ -1632,21 +1632,24 @@ func buildExtensionObjects(rawLines []string, cleanLines []string, lineIndex int
 		} else if stack != nil && len(*stack) != 0 {
 			stackIndex := len(*stack) - 1
 			if value == "" {
-				if nextIsList {
-					// start of new list
-					newList := make([]string, 0)
-					(*stack)[stackIndex].(map[string]interface{})[key] = &newList
-					*stack = append(*stack, &newList)
-				} else {
-					// start of new map
-					newMap := make(map[string]interface{})
-					(*stack)[stackIndex].(map[string]interface{})[key] = newMap
-					*stack = append(*stack, newMap)
+				// a key can only be nested in a map; under a list the line is malformed and skipped
+				if parent, isMap := (*stack)[stackIndex].(map[string]interface{}); isMap {
+					if nextIsList {
+						// start of new list
+						newList := make([]string, 0)
+						parent[key] = &newList
+						*stack = append(*stack, &newList)
+					} else {
+						// start of new map
+						newMap := make(map[string]interface{})
+						parent[key] = newMap
+						*stack = append(*stack, newMap)
+					}
 				}
 			} else {
 				// key:value
-				if reflect.TypeOf((*stack)[stackIndex]).Kind() == reflect.Map {
-					(*stack)[stackIndex].(map[string]interface{})[key] = value
+				if parent, isMap := (*stack)[stackIndex].(map[string]interface{}); isMap {
+					parent[key] = value
 				}
 				if lineIndex < len(rawLines)-1 && lineIndex < len(cleanLines)-1 && !rxAllowedExtensions.MatchString(cleanLines[lineIndex+1]) {
 					stack.walkBack(rawLines, lineIndex)
@@ -1657,9 +1660,11 @@ func buildExtensionObjects(rawLines []string, cleanLines []string, lineIndex int
 	} else if stack != nil && len(*stack) != 0 {
 		// Should be a list item
 		stackIndex := len(*stack) - 1
-		list := (*stack)[stackIndex].(*[]string)
-		*list = append(*list, key)
-		(*stack)[stackIndex] = list
+		// a list item can only be appended to a list; under a map the line is malformed and skipped
+		if list, isList := (*stack)[stackIndex].(*[]string); isList {
+			*list = append(*list, key)
+			(*stack)[stackIndex] = list
+		}
 		if lineIndex < len(rawLines)-1 && lineIndex < len(cleanLines)-1 && !rxAllowedExtensions.MatchString(cleanLines[lineIndex+1]) {
 			stack.walkBack(rawLines, lineIndex)
 		}
